@@ -348,6 +348,10 @@ func StatementProcessor(gs *gripql.GraphStatement, db gdbi.GraphInterface, ps *p
 			if _, ok := aggs[a.Name]; ok {
 				return nil, fmt.Errorf("duplicate aggregation name '%s' found; all aggregations must have a unique name", a.Name)
 			}
+			if a.Aggregation == nil {
+				return nil, fmt.Errorf("aggregation '%s' has no type", a.Name)
+			}
+			aggs[a.Name] = a
 		}
 		ps.LastType = gdbi.AggregationData
 		return &aggregate{stmt.Aggregate.Aggregations}, nil
